@@ -92,10 +92,15 @@ EnvBound(f) == EnvValue(f) # <<>>
 
 ---------------------------------------------------------------------------
 (* defaults (the __setdefault__ of each field class) *)
+RECURSIVE NewItems(_, _, _, _, _)
 LeafDefault(f) ==
     LET d == f.default IN
     CASE f.kind = "list" /\ d.t = "list" ->
             IF f.item.kind \in {"nofield"} THEN Ok(d)
+            ELSE IF f.item.kind = "schema" THEN
+                \* ListProxy(cfg, field, default): every dict becomes a new item configuration
+                LET r == NewItems(f.item, d.l, <<>>, 1, <<>>) IN
+                IF r.ok THEN Ok(r.cfg) ELSE Fail("ValidationError")
             ELSE ValidateItems(f.item, d.l, <<>>)
       [] f.kind = "dict" /\ d.t = "dict" ->
             IF f.keyf.kind = "nofield" /\ f.valf.kind = "nofield" THEN Ok(d)
@@ -137,6 +142,7 @@ ValidatorOk(name, c) ==
                                  \/ c.vals["x"].t # "int" \/ c.vals["y"].t # "int"
                                  \/ c.vals["x"].i < c.vals["y"].i
       [] name = "needs_x"     -> "x" \in DOMAIN c.vals /\ ~IsNone(c.vals["x"])
+      [] name = "x_not_3"     -> ~("x" \in DOMAIN c.vals /\ c.vals["x"] = IntV(3))
 
 ---------------------------------------------------------------------------
 RECURSIVE ValidateCfg(_, _, _)
@@ -194,7 +200,6 @@ NewItem(itemS, v, path) ==
         Res(r.ok, v.c, r.err, {})
     ELSE Res(FALSE, NoneV, Err("ValueError", path), {})
 
-RECURSIVE NewItems(_, _, _, _, _)
 NewItems(itemS, l, path, n, acc) ==
     IF l = <<>> THEN Res(TRUE, ListV(acc), NoErr, {})
     ELSE LET r == NewItem(itemS, Head(l), Append(path, <<"#", n>>)) IN
@@ -371,6 +376,13 @@ ListOp(f, cur, op, path) ==
       [] op.m = "setslice_all" ->
             LET r == ItemsValidate(f, op.vs, path, <<>>) IN
             IF r.ok THEN Res(TRUE, ListV(r.cfg), NoErr, {}) ELSE Res(FALSE, cur, r.err, {})
+      [] op.m \in {"slice_from", "extend_from"} ->
+            \* target[:] = cfg.<src> / target.extend(cfg.<src>): the source is a typed list of
+            \* ANOTHER field, so every item is validated by the target's item field
+            LET r == ItemsValidate(f, op.items, path, <<>>) IN
+            IF op.m = "slice_from"
+            THEN (IF r.ok THEN Res(TRUE, ListV(r.cfg), NoErr, {}) ELSE Res(FALSE, cur, r.err, {}))
+            ELSE Res(r.ok, ListV(l \o r.cfg), r.err, {})
       [] op.m = "pop" ->
             IF n = 0 THEN Res(FALSE, cur, Err("IndexError", path), {})
             ELSE Res(TRUE, ListV(SubSeq(l, 1, n - 1)), NoErr, {})
@@ -418,7 +430,11 @@ ContainerOp(S, c, p, k, op) ==
         cur == cp.vals[k]
         here == Append(p, k)
     IN  IF f.kind = "list" /\ cur.t = "list" THEN
-            LET r == ListOp(f, cur, op, here) IN
+            LET op2 == IF op.m \in {"slice_from", "extend_from"}
+                       THEN (IF cp.vals[op.src].t = "list" THEN op @@ [items |-> cp.vals[op.src].l]
+                             ELSE op @@ [items |-> <<>>])
+                       ELSE op
+                r == ListOp(f, cur, op2, here) IN
             Res(r.ok, PutAt(c, p, [cp EXCEPT !.vals = Put(@, k, r.cfg)]), r.err, {})
         ELSE IF f.kind = "dict" /\ cur.t = "dict" THEN
             LET r == DictOp(f, cur, op, here) IN
